@@ -64,9 +64,9 @@ var modelTier = "quick"
 type ModelWObs struct {
 	EventsOK bool // event_ok_b holds for every block of the ghost trace (premise of the codec theorems)
 	Events   int
-	OOB   bool
-	Res   []OpRes // Err is "" or "E"
-	Dests [][][]byte
+	OOB      bool
+	Res      []OpRes // Err is "" or "E"
+	Dests    [][][]byte
 }
 
 func (p *DriverPool) ModelW(s Setting, datas [][]byte, ops []Op, failAt int) (*ModelWObs, error) {
